@@ -18,6 +18,7 @@ import Mhd.Proofs.AuthApi
 import Mhd.Proofs.AuthCorrupt
 import Mhd.Proofs.AuthRef
 import Mhd.Proofs.AuthLay
+import Mhd.Proofs.AuthCache
 
 namespace Mhd.C14
 open Mhd.Auth Mhd.Gen.Auth
@@ -630,6 +631,92 @@ def exHdrs : List Hdr :=
    ⟨headerKind, authHeader, digestBase ++ [32, 110, 99, 61, 50]⟩]
 example : basicApiH exHdrs = some ([65], some [66]) ∧ (digestApiH exHdrs).map (fun o => o.isSome) = .ok false ∧
     (digestApiH exHdrs.reverse).map (fun o => o.isSome) = .ok true := by decide
+
+
+/-! ## The per-request cache (`rq.bauth_tried`, `rq.dauth_tried`) -/
+
+/-- A query made before the request headers are processed (only possible from the callback installed with
+    MHD_OPTION_URI_LOG_CALLBACK) returns "no credentials" and leaves the cache untouched — for all three API
+    functions, any headers, any cache in which that scheme has not been tried (in particular the fresh one). -/
+theorem early_query_not_cached (hs : List Hdr) (c : RqAuth) :
+    (c.bTried = false → basicQ false hs c = (none, c)) ∧
+    (c.dTried = false → infoQ false hs c = .ok (none, c) ∧ unameQ false hs c = .ok (none, c)) := by
+  constructor
+  · intro h; simp [basicQ, getBauth, h, basicOf]
+  · intro h; simp [infoQ, unameQ, getDauth, h]
+
+/-- … so whatever was asked early (any number of times), a later query for the same request returns what the
+    headers say: the answers of the cache-free functions `basicApiH` / `digestApiH`. -/
+theorem late_query_after_early (hs : List Hdr) :
+    (basicQ true hs (basicQ false hs (basicQ false hs RqAuth.init).2).2).1 = basicApiH hs ∧
+    (infoQ true hs RqAuth.init).map (·.1) = (digestApiH hs).map (fun o => o.map (·.1)) ∧
+    (unameQ true hs RqAuth.init).map (·.1) = (digestApiH hs).map (fun o => o.map (·.2)) ∧
+    infoQ false hs RqAuth.init = .ok (none, RqAuth.init) ∧ unameQ false hs RqAuth.init = .ok (none, RqAuth.init) := by
+  have e := early_query_not_cached hs RqAuth.init
+  have eb := e.1 rfl
+  refine ⟨?_, ?_, ?_, (e.2 rfl).1, (e.2 rfl).2⟩
+  · rw [eb]; simp only [eb]
+    simp [basicQ, getBauth, RqAuth.init, basicOf_bauthParams]
+  · simp only [infoQ, getDauth, RqAuth.init, digestApiH]
+    cases dauthParams hs <;> simp [Res.map]
+    rename_i o; cases o <;> rfl
+  · simp only [unameQ, getDauth, RqAuth.init, digestApiH]
+    cases dauthParams hs <;> simp [Res.map]
+    rename_i o; cases o <;> rfl
+
+/-- General form, for a cache in any state reachable within the request (`consistent`): the answer is the one
+    of the headers as soon as the state allows it or the scheme has been tried, "none" otherwise; the cache stays
+    consistent; and once tried, the answer no longer depends on the connection state (repeated queries are
+    idempotent). -/
+theorem basic_query_spec (st : Bool) (hs : List Hdr) (c : RqAuth) (hc : c.consistent hs) :
+    (basicQ st hs c).1 = (if st || c.bTried then basicApiH hs else none) ∧ (basicQ st hs c).2.consistent hs ∧
+    (∀ st', (basicQ st' hs (basicQ true hs c).2) = ((basicQ true hs c).1, (basicQ true hs c).2)) := by
+  obtain ⟨h1, h2, _, h4⟩ := getBauth_spec st hs c hc
+  refine ⟨?_, h2, ?_⟩
+  · simp only [basicQ, h1]
+    split
+    · exact basicOf_bauthParams hs
+    · rfl
+  · intro st'
+    obtain ⟨g1, g2, _, g4⟩ := getBauth_spec true hs c hc
+    have ht : (getBauth true hs c).2.bTried = true := by simpa using g4
+    simp only [basicQ]
+    have key : ∀ c' : RqAuth, c'.bTried = true → getBauth st' hs c' = (c'.b, c') := by
+      intro c' h; unfold getBauth; rw [if_pos h]
+    rw [key _ ht]
+    have hb : (getBauth true hs c).2.b = (getBauth true hs c).1 := by
+      rw [g1]; simp only [Bool.true_or, if_true]; exact g2.1 ht
+    simp [hb]
+
+theorem digest_query_spec (st : Bool) (hs : List Hdr) (c : RqAuth) (hc : c.consistent hs) (x : Option (Bytes × DAuth) × RqAuth)
+    (hx : getDauth st hs c = .ok x) :
+    Res.ok x.1 = (if st || c.dTried then dauthParams hs else .ok none) ∧ x.2.consistent hs ∧
+    (st = true → ∀ st', getDauth st' hs x.2 = .ok (x.1, x.2)) := by
+  obtain ⟨_, _, h3⟩ := getDauth_spec st hs c hc
+  obtain ⟨a, b, d⟩ := h3 x hx
+  refine ⟨d, a, ?_⟩
+  intro hst st'
+  have ht : x.2.dTried = true := by rw [b, hst]; rfl
+  have hd : Res.ok x.2.d = dauthParams hs := a.2 ht
+  have hx1 : Res.ok x.1 = dauthParams hs := by rw [d, hst]; rfl
+  have : x.2.d = x.1 := by
+    have := hd.trans hx1.symm
+    simpa using this
+  unfold getDauth; rw [if_pos ht, this]
+
+/-- `connection_reset` clears the cache for the next request on a keep-alive connection: the fresh cache is
+    consistent with every header list, so the next request's answers depend on its own headers only. -/
+theorem next_request_fresh (hs' : List Hdr) :
+    RqAuth.init.consistent hs' ∧ (basicQ true hs' RqAuth.init).1 = basicApiH hs' := by
+  refine ⟨init_consistent hs', ?_⟩
+  have := (basic_query_spec true hs' RqAuth.init (init_consistent hs')).1
+  simpa using this
+
+/-- Non-vacuity (headers of `exHdrs`: Basic `A:B`; first Digest header broken): early queries see nothing and cache
+    nothing, the handler sees the Basic credentials, a second request with other headers sees its own. -/
+example : (basicQ false exHdrs RqAuth.init).1 = none ∧
+    (basicQ true exHdrs (basicQ false exHdrs RqAuth.init).2).1 = some ([65], some [66]) ∧
+    (basicQ true (exHdrs.drop 2) RqAuth.init).1 = none := by decide
 
 
 end Mhd.C14
